@@ -876,9 +876,13 @@ class FedSim(object):
                         kw["encrypt_cert_advice"] = fed.cert_pem(p["enc_cert_advice"])
                     if p.get("advice"):
                         kw["encrypted_advice_attributes"] = True
+                    if p.get("encrypt", False) is not None:
+                        kw["encrypt_assertion"] = enc
+                    elif p.get("enc_arg") == "none":
+                        kw["encrypt_assertion"] = None      # spelled out as "not decided by the caller"
+                    # (otherwise the application leaves the argument out: the configuration decides)
                     resp = srv.create_authn_response(
                         identity, authn=authn, sign_response=sign_r, sign_assertion=sign_a,
-                        encrypt_assertion=(None if p.get("encrypt", False) is None else enc),
                         encrypt_assertion_self_contained=bool(p.get("self_contained", True)),
                         sign_alg=p.get("sigalg"), digest_alg=p.get("digalg"),
                         release_policy=pol, **dict(ra, **kw))
@@ -976,6 +980,8 @@ class FedSim(object):
             scd.in_response_to = d["scd_irt"]
         if "recipient" in d:
             scd.recipient = d["recipient"]
+        if d.get("scd_address"):
+            scd.address = d["scd_address"]      # the optional Address attribute of the bearer confirmation
         if d.get("first_sc_nodata"):
             # a confirmation that carries no SubjectConfirmationData in front of the real one (schema-legal)
             scs.insert(0, saml.SubjectConfirmation(method=saml.SCM_BEARER))
@@ -1194,6 +1200,10 @@ class FedSim(object):
         conv = None
         if ev.get("conv"):
             conv = {"entity_id": sp.entity_id, "remote_addr": "0.0.0.0"}
+            if isinstance(ev["conv"], dict) and ev["conv"].get("remote_addr"):
+                # the application knows the peer's network address and passes it on
+                conv["remote_addr"] = ev["conv"]["remote_addr"]
+                self.count("probe.conv-remote-addr")
         w = self.world
         rec = {"f": ev["f"], "r": ev.get("r", 0), "to": to, "via": via, "via_binding": via_binding,
                "msg_binding": msg["binding"], "mut": mutdesc, "conv": bool(conv),
@@ -1313,6 +1323,29 @@ class FedSim(object):
         except Exception as e:
             self.count("event.publish-own-metadata.error." + type(e).__name__)
         return {"node": ev["node"]}
+
+    def ev_ecp(self, ev, i):
+        """The SP application hands a PAOS / ECP answer (the response of flow f inside a SOAP envelope) to
+        Saml2Client.parse_ecp_authn_response().  Whatever comes of it, it is a call on the long-lived client object
+        that sits between other deliveries."""
+        fl = self.flows.get(ev["f"])
+        if fl is None or not fl.responses:
+            return None
+        msg = fl.responses[ev.get("r", 0) % len(fl.responses)]
+        to = ev.get("to") or fl.sp
+        sp = self.nodes.get(to)
+        if sp is None or sp.kind != "sp" or not msg.get("xml"):
+            return None
+        rec = {"f": ev["f"], "to": to}
+        try:
+            with self.world.on(to):
+                out = sp.client.parse_ecp_authn_response(wire.soap_wrap(msg["xml"]), sp.outstanding)
+            rec["returned"] = out is not None
+            self.count("event.ecp-answer.returned")
+        except Exception as e:
+            rec["exc"] = type(e).__name__
+            self.count("event.ecp-answer.refused." + type(e).__name__)
+        return rec
 
     def ev_restart(self, ev, i):
         n = self.nodes.get(ev["node"])
